@@ -27,13 +27,47 @@ type condGen struct {
 	maxThr   int
 	closed   bool
 	lastObs  *cObs
+	usedSpecial map[int64]bool
 }
 
 func newCondGen(rnd *rand.Rand, typ string, reqmax, ctrlmax, maxThr int) *condGen {
 	return &condGen{rnd: rnd, typ: typ, kind: condKind(typ), run: newCondRun(typ, reqmax, ctrlmax, maxThr), maxThr: maxThr, nextItem: 1}
 }
 
-func (g *condGen) item() int64 { x := g.nextItem; g.nextItem++; return x }
+// the next item: now and then one of the boundary values (each at most once per schedule; the nil interface first,
+// except for SyncQueue whose Pop returns nil for "closed", so that a nil item is outside what its API can convey)
+func (g *condGen) item() int64 {
+	if g.rnd.Intn(100) < 12 {
+		if id, ok := g.special(g.rnd.Intn(2) == 0); ok {
+			return id
+		}
+	}
+	x := g.nextItem
+	g.nextItem++
+	return x
+}
+
+func (g *condGen) special(preferNil bool) (int64, bool) {
+	if g.usedSpecial == nil {
+		g.usedSpecial = map[int64]bool{}
+	}
+	var free []int64
+	for _, id := range specialIDs {
+		if g.usedSpecial[id] || (id == idNil && g.kind == kSync) {
+			continue
+		}
+		free = append(free, id)
+	}
+	if len(free) == 0 {
+		return 0, false
+	}
+	id := free[g.rnd.Intn(len(free))]
+	if preferNil && free[0] == idNil {
+		id = idNil
+	}
+	g.usedSpecial[id] = true
+	return id, true
+}
 
 func (g *condGen) launch(anyway bool) (cLaunch, bool) {
 	if g.nextTid >= g.maxThr {
@@ -211,7 +245,7 @@ func (g *condGen) adds(m int, mode int) {
 	}
 }
 
-var condScenarios = []string{"random", "park-close", "park-add", "drain-after-close", "bound", "close-race", "steal", "tryclose", "add-close-burst", "add-close-burst"}
+var condScenarios = []string{"random", "park-close", "park-add", "drain-after-close", "bound", "close-race", "steal", "tryclose", "add-close-burst", "add-close-burst", "park-add-nil", "park-add-nil"}
 
 func (g *condGen) scenario(name string) {
 	rnd := g.rnd
@@ -279,6 +313,40 @@ func (g *condGen) scenario(name string) {
 		}
 		g.exec(b)
 		g.park(1, false)
+	case "park-add-nil":
+		// the boundary items: k consumers blocked, k items of which some are the nil interface / a typed nil pointer /
+		// zero values: every one of them is an item like any other, all k consumers return with k distinct items
+		k := 1 + rnd.Intn(4)
+		g.park(k, rnd.Intn(2) == 0)
+		var ops []cOp
+		for i := 0; i < k; i++ {
+			op := g.addOp()
+			if i == 0 || rnd.Intn(2) == 0 {
+				if id, ok := g.special(i == 0); ok {
+					op.X = id
+				}
+			}
+			ops = append(ops, op)
+		}
+		rnd.Shuffle(len(ops), func(i, j int) { ops[i], ops[j] = ops[j], ops[i] })
+		switch rnd.Intn(3) {
+		case 0:
+			for _, op := range ops {
+				g.exec(cBatch{Lanes: [][]cOp{{op}}})
+			}
+		case 1:
+			g.exec(cBatch{Lanes: [][]cOp{ops}})
+		default:
+			h := (len(ops) + 1) / 2
+			if h == len(ops) {
+				g.exec(cBatch{Lanes: [][]cOp{ops}})
+			} else {
+				g.exec(cBatch{Lanes: [][]cOp{ops[:h], ops[h:]}})
+			}
+		}
+		if rnd.Intn(2) == 0 {
+			g.random(2)
+		}
 	case "add-close-burst":
 		// k >= 2 consumers parked, then an add immediately followed by Close, back to back from one goroutine: the
 		// consumer the add woke has usually not run when Close arrives, so Close finds a non-empty queue
